@@ -867,6 +867,8 @@ class Interp:
                     it = list(it)
                 if isinstance(it, Obj) and "__iter__" in it.attrs:
                     it = it.attrs["__iter__"]
+                if isinstance(it, str) and not it.startswith("<"):
+                    it = list(it)       # a concrete text: its characters
                 if not isinstance(it, (list, tuple)):
                     ok[0] = False
                     return
@@ -1246,7 +1248,7 @@ class Interp:
                     return dict(base)
             if isinstance(base, str) and m == "lower":
                 return base.lower()
-            if isinstance(base, str) and not base.startswith("<") and m in ("split", "startswith", "endswith", "strip", "upper", "isdigit", "rsplit", "lstrip", "rstrip") \
+            if isinstance(base, str) and not base.startswith("<") and m in ("split", "startswith", "endswith", "strip", "upper", "isdigit", "rsplit", "lstrip", "rstrip", "replace", "isprintable", "isspace", "isalnum", "isalpha", "count", "find", "splitlines") \
                     and all(isinstance(a, (str, int)) for a in args) and not kwargs:
                 return getattr(base, m)(*args)
             if isinstance(base, str) and not base.startswith("<") and m == "format" and not kwargs and all(isinstance(a_, (str, int)) and not (isinstance(a_, str) and a_.startswith("<")) for a_ in args):
